@@ -7,6 +7,7 @@ table and the match-kind tables are generated from the current source (Gen/Const
 Proofs: Daac/Proofs/SerialRT.lean.
 -/
 import Daac.Proofs.SerialRT
+import Daac.Proofs.WF2
 namespace Daac.Props.C09
 open Daac
 variable {V : Type}
@@ -72,5 +73,32 @@ theorem prim_widths :
 
 /-- Non-vacuity: a concrete non-trivial char-wise automaton satisfies the hypotheses. -/
 example : exampleDA.WF (serUnsigned 4) (fun v => 0 ≤ v ∧ v < 256 ^ 4) := exampleDA_wf
+
+
+/-! ### Every BUILT automaton (model of the builder) round-trips -/
+
+/-- For every collection, kind, variant and `num_free_blocks`: the automaton the model builder
+returns is well-formed for serialisation (all fields within their widths — incl. the 24-bit output
+position and the CHECK byte of the byte-wise state, for vacant elements too), within the
+documented size limits (pattern lengths, node count and mapper table below 2^32). -/
+theorem built_is_wellformed (S : Ser V) (D : V → Prop) (variant : Variant) (cfg : Cfg)
+    (P : List (LPat V)) (da : DA V) (hb : buildDA variant cfg P = .ok da) (hk : keysOk P)
+    (hbytes : variant = .bytewise → ∀ p ∈ P, ∀ c ∈ p.key, c < 256)
+    (hkind : cfg.kind ∈ [0, 1, 2]) (hvals : ∀ p ∈ P, D p.value) (hlen : ∀ p ∈ P, p.blen < 2 ^ 32)
+    (hcount : P.length < 2 ^ 32) (htab : variant = .charwise → tableLen P < 2 ^ 32)
+    (hnodes : ∀ t, buildTrie cfg.kind P = .ok t → t.size < 2 ^ 32) : da.WF S D :=
+  wf_of_build S D variant cfg P da hb hk hbytes hkind hvals hlen hcount htab hnodes
+
+/-- … hence deserialising its image (plus arbitrary trailing bytes) restores an equal automaton
+and hands back the trailing bytes. -/
+theorem built_roundtrip (S : Ser V) (D : V → Prop) (variant : Variant) (cfg : Cfg)
+    (P : List (LPat V)) (da : DA V) (hb : buildDA variant cfg P = .ok da) (hk : keysOk P)
+    (hbytes : variant = .bytewise → ∀ p ∈ P, ∀ c ∈ p.key, c < 256)
+    (hkind : cfg.kind ∈ [0, 1, 2]) (hvals : ∀ p ∈ P, D p.value) (hlen : ∀ p ∈ P, p.blen < 2 ^ 32)
+    (hcount : P.length < 2 ^ 32) (htab : variant = .charwise → tableLen P < 2 ^ 32)
+    (hnodes : ∀ t, buildTrie cfg.kind P = .ok t → t.size < 2 ^ 32)
+    (hS : S.LawfulOn D) (rest : List Nat) :
+    deserialize S da.variant (serialize S da ++ rest) = some (da, rest) :=
+  roundtrip_of_build S D variant cfg P da hb hk hbytes hkind hvals hlen hcount htab hnodes hS rest
 
 end Daac.Props.C09
